@@ -323,3 +323,12 @@ Definition conn_use_keyspace (session_cons : Z) (ks : bytes) : request :=
 
 Definition conn_prepare (version : Z) (current_ks stmt : bytes) : request :=
   RPrepare stmt (if version >? K.protoVersion4 then current_ks else []) [].
+
+(* Session.executeBatch (session.go, "if batch.Size() > BatchSizeMaximum { return &Iter{err: ErrTooManyStmts} }"):
+   the guard in front of every batch that goes through the public API *)
+Definition session_batch_refused (n : Z) : bool := n >? K.BatchSizeMaximum.
+
+Definition session_execute_batch (version typ : Z) (entries : list (bytes * option (bytes * list qvalue)))
+           (cl serial : Z) (dts : bool) (dtsv : Z) (payload : payload_t) : option request :=
+  if session_batch_refused (len entries) then None
+  else conn_execute_batch version typ entries cl serial dts dtsv payload.
